@@ -27,7 +27,10 @@
 (***************************************************************************)
 EXTENDS Sdf, Json
 
-CONSTANTS Level       \* 1: small parameter sets (quick), 2: larger (thorough)
+CONSTANTS Level,      \* 1: small parameter sets (quick), 2: larger (thorough)
+          Seed,       \* rotates which binary magnitudes go with which shape
+          NExp,       \* how many binary magnitudes between the extremes every shape with den = 1 is also emitted at
+          Fine        \* samples per axis of the secondary magnitude variants (3 or 5)
 
 VARIABLES case
 vars == <<case>>
@@ -107,17 +110,39 @@ Bounds(s) ==
       [] OTHER -> HullAll(s.ss, 1)
 
 N == 7
-Stride(ext) == IF ext <= N - 1 THEN 1 ELSE (ext + N - 2) \div (N - 1)        \* ceil(ext / (N-1))
-Lattice(s) ==
+Stride(ext, n) == IF ext <= n - 1 THEN 1 ELSE (ext + n - 2) \div (n - 1)        \* ceil(ext / (n-1))
+LatticeN(s, n) ==
     LET b == Bounds(s)
-        st == [i \in 1..3 |-> Stride(b.hi[i] - b.lo[i] + 2)]
-    IN [lo |-> <<b.lo[1] - 1, b.lo[2] - 1, b.lo[3] - 1>>, st |-> <<st[1], st[2], st[3]>>, n |-> N]
+        st == [i \in 1..3 |-> Stride(b.hi[i] - b.lo[i] + 2, n)]
+    IN [lo |-> <<b.lo[1] - 1, b.lo[2] - 1, b.lo[3] - 1>>, st |-> <<st[1], st[2], st[3]>>, n |-> n]
+Lattice(s) == LatticeN(s, N)
+
+(* ----------------------- binary magnitude (round 2) ----------------------- *)
+\* The real shape is (integer parameters) / den * 2^e2: the same integers read in a lattice unit of another
+\* size.  Distances are homogeneous of degree 1 and IEEE arithmetic commutes with powers of two, so the real
+\* closures must return the same values in lattice units at every e2; a closure with an absolute epsilon does
+\* not.  The extreme magnitudes decide the most (at 2^-40 every absolute epsilon above ~1e-12 matters, at 2^40
+\* every clamp below ~1e12), so every shape with den = 1 is also emitted at BOTH extremes and at NExp magnitudes
+\* in between (rotated by a checksum of the shape and the seed).  Sample lattices of these variants: one extreme
+\* (alternating with the checksum) on a 5x5x5 lattice (8 blocks + the far points), the others on an n x n x n
+\* lattice with n = Fine (quick: 3, i.e. one block spanning the shape + the far points; thorough: 5).
+ExpLadder == <<0 - 20, 0 - 12, 0 - 5, 0 - 2, 3, 12, 20>>
+Extreme == 40
+TypeIdx(t) == CASE t = "sphere" -> 0 [] t = "box" -> 1 [] t = "rbox" -> 2 [] t = "line" -> 3 [] t = "rcone" -> 4
+                [] t = "rcyl" -> 5 [] t = "plane" -> 6 [] t = "tr" -> 7 [] t = "union" -> 8 [] t = "inter" -> 9 [] OTHER -> 10
+Checksum(s) == LET b == Bounds(s) IN
+               Abs(b.lo[1] + 3 * b.lo[2] + 5 * b.lo[3] + 7 * b.hi[1] + 11 * b.hi[2] + 13 * b.hi[3]) + TypeIdx(s.t)
+VariantsOf(s) ==
+    LET h == Checksum(s) + Seed IN
+    {[e |-> 0 - Extreme, n |-> IF h % 2 = 0 THEN 5 ELSE Fine], [e |-> Extreme, n |-> IF h % 2 = 0 THEN Fine ELSE 5]}
+    \cup {[e |-> ExpLadder[((h + k) % Len(ExpLadder)) + 1], n |-> Fine] : k \in 0..(NExp - 1)}
 
 Dens == IF Level = 1 THEN {1, 2} ELSE {1, 2, 4}
 \* half-/quarter-integer parameters: the same integers read with a denominator (a different real shape)
 Init == \E s \in Shapes, d \in Dens :
             /\ d = 1 \/ s.t \notin {"union", "inter", "sub"}
-            /\ case = [k |-> "sdf", den |-> d, shape |-> s, lat |-> Lattice(s)]
+            /\ \E x \in {[e |-> 0, n |-> N]} \cup (IF d = 1 THEN VariantsOf(s) ELSE {}) :
+                  case = [k |-> "sdf", den |-> d, e2 |-> x.e, shape |-> s, lat |-> LatticeN(s, x.n)]
 Next == FALSE /\ case' = case
 Spec == Init /\ [][Next]_vars
 
@@ -130,42 +155,44 @@ IsConvexType(s) == s.t \notin {"union", "sub", "tr"}
 Even(v) == v[1] % 2 = 0 /\ v[2] % 2 = 0 /\ v[3] % 2 = 0
 Half(v) == <<v[1] \div 2, v[2] \div 2, v[3] \div 2>>
 
+\* (the laws are about the integer shape: checked once per shape, on the states with e2 = 0)
+Base == case.e2 = 0
 Adm == Admissible(S)
 Convex ==
-    (IsConvexType(S) /\ (S.t = "inter" => \A k \in DOMAIN S.ss : IsConvexType(S.ss[k]))) =>
+    (Base /\ IsConvexType(S) /\ (S.t = "inter" => \A k \in DOMAIN S.ss : IsConvexType(S.ss[k]))) =>
         \A p, q \in Pts : Even(VAdd(p, q)) =>
             LET m == Half(VAdd(p, q)) IN
             /\ (Cls(S, p) <= 0 /\ Cls(S, q) <= 0) => Cls(S, m) <= 0
             /\ (Cls(S, p) < 0 /\ Cls(S, q) < 0) => Cls(S, m) < 0
-RefAgrees == \A p \in Pts : RefAgreesWithCls(S, p)
+RefAgrees == Base => \A p \in Pts : RefAgreesWithCls(S, p)
 ConeLaws ==
-    /\ S.t = "rcone" =>
+    /\ (Base /\ S.t = "rcone") =>
           \A p \in Pts :
               /\ (Cls(Sphere(S.a, S.r1), p) < 0 \/ Cls(Sphere(S.b, S.r2), p) < 0) => Cls(S, p) < 0
               /\ (Cls(Sphere(S.a, S.r1), p) <= 0 \/ Cls(Sphere(S.b, S.r2), p) <= 0) => Cls(S, p) <= 0
               /\ Cls(Line(S.a, S.b, Max2(S.r1, S.r2)), p) > 0 => Cls(S, p) > 0
               /\ Cls(Line(S.a, S.b, Min2(S.r1, S.r2)), p) < 0 => Cls(S, p) < 0
               /\ S.r1 = S.r2 => Cls(S, p) = Cls(Line(S.a, S.b, S.r1), p)
-    /\ S.t = "line" =>
+    /\ (Base /\ S.t = "line") =>
           \A p \in Pts :
               /\ Cls(S, p) = ClsCone(S.a, S.b, S.r, S.r, p)
               /\ S.a = S.b => Cls(S, p) = Cls(Sphere(S.a, S.r), p)
 BoxLaws ==
-    S.t = "rbox" =>
+    (Base /\ S.t = "rbox") =>
         \A p \in Pts :
             /\ Cls(BoxS(S.c, S.b), p) <= 0 => Cls(S, p) < 0
             /\ Cls(BoxS(S.c, <<S.b[1] + 2 * S.r, S.b[2] + 2 * S.r, S.b[3] + 2 * S.r>>), p) > 0 => Cls(S, p) > 0
             /\ \A i \in 1..3 : (\A j \in 1..3 : j # i => p[j] = S.c[j]) =>
                                    Cls(S, p) = Sgn(2 * Abs(p[i] - S.c[i]) - S.b[i] - 2 * S.r)
 CylLaws ==
-    S.t = "rcyl" =>
+    (Base /\ S.t = "rcyl") =>
         \A p \in Pts :
             /\ (p[1] = S.c[1] /\ p[3] = S.c[3]) => Cls(S, p) = Sgn(Abs(p[2] - S.c[2]) - S.h - S.rb)
             /\ p[2] = S.c[2] => Cls(S, p) = Sgn((p[1] - S.c[1]) * (p[1] - S.c[1]) + (p[3] - S.c[3]) * (p[3] - S.c[3]) - 4 * S.ra * S.ra)
 TranslateLaw ==
-    S.t = "tr" => \A p \in Pts : Cls(S, VAdd(p, S.o)) = Cls(S.ss[1], p) /\ Cls(Tr(S, S.o), VAdd(VAdd(p, S.o), S.o)) = Cls(S.ss[1], p)
+    (Base /\ S.t = "tr") => \A p \in Pts : Cls(S, VAdd(p, S.o)) = Cls(S.ss[1], p) /\ Cls(Tr(S, S.o), VAdd(VAdd(p, S.o), S.o)) = Cls(S.ss[1], p)
 SetLaws ==
-    (S.t \in {"union", "inter", "sub"} /\ Len(S.ss) = 2) =>
+    (Base /\ S.t \in {"union", "inter", "sub"} /\ Len(S.ss) = 2) =>
         \A p \in Pts :
             LET a == S.ss[1]
                 b == S.ss[2]
